@@ -129,23 +129,62 @@ func runC07(raw json.RawMessage, w *Writer) {
 		}
 		w.Emit(Ev{"ev": "next", "c": int(h.c), "v": int(h.v), "roc": roc})
 	}
-	// witness: for each call, the hook event with the same value inside its window
+	// witness: a one-to-one assignment of client returns to hook events such that every call's
+	// value was issued inside its own window. Values repeat after a wrap and a descheduled caller's
+	// window can span a whole wrap, so the assignment is searched per value (groups are tiny).
 	type flat struct {
 		callEv
 		ref int
 	}
 	all := []flat{}
+	hooksByVal := map[uint16][]int{}
+	for i, h := range hooks {
+		hooksByVal[h.v] = append(hooksByVal[h.v], i)
+	}
+	callsByVal := map[uint16][]callEv{}
 	for g := range calls {
 		for _, ce := range calls[g] {
-			lo := sort.Search(len(hooks), func(i int) bool { return hooks[i].c > ce.inv })
-			ref := 0
-			for i := lo; i < len(hooks) && hooks[i].c < ce.ret; i++ {
-				if hooks[i].v == ce.v {
-					ref = i + 1
-					break
+			callsByVal[ce.v] = append(callsByVal[ce.v], ce)
+		}
+	}
+	inWindow := func(ce callEv, hi int) bool { return hooks[hi].c > ce.inv && hooks[hi].c < ce.ret }
+	for v, cs := range callsByVal {
+		hs := hooksByVal[v]
+		assign := make([]int, len(cs)) // hook index + 1, 0 = none
+		used := make([]bool, len(hs))
+		var search func(k int) bool
+		search = func(k int) bool {
+			if k == len(cs) {
+				return true
+			}
+			for j, hi := range hs {
+				if !used[j] && inWindow(cs[k], hi) {
+					used[j], assign[k] = true, hi+1
+					if search(k + 1) {
+						return true
+					}
+					used[j], assign[k] = false, 0
 				}
 			}
-			all = append(all, flat{ce, ref})
+			return false
+		}
+		if len(cs) > 8 || !search(0) {
+			// no complete assignment: propose greedily so that TLC reports the call that cannot be matched
+			for j := range used {
+				used[j] = false
+			}
+			for k := range cs {
+				assign[k] = 0
+				for j, hi := range hs {
+					if !used[j] && inWindow(cs[k], hi) {
+						used[j], assign[k] = true, hi+1
+						break
+					}
+				}
+			}
+		}
+		for k, ce := range cs {
+			all = append(all, flat{ce, assign[k]})
 		}
 	}
 	sort.SliceStable(all, func(i, j int) bool { return all[i].ref < all[j].ref })
